@@ -534,6 +534,8 @@ func verifSpecCL(lowered string) primitive.ConsistencyLevel {
 // handleQuery: a QUERY is answered locally iff the parser says it is handled (USE / system SELECT,
 // see parser.IsQueryHandled); otherwise it is forwarded, exactly once.
 //@ func proxy.client.handleQuery [C01, C09]
+//@   before parser.IsQueryHandled#1 set $hkKsOK = (arg0.id == parser.IdentifierFromString(c.keyspace).id && arg0.ignoreCase == parser.IdentifierFromString(c.keyspace).ignoreCase)
+//@   ensures resolved-in-the-connection-keyspace: $hkKsOK [C09]
 //@   requires ring: ringOK(c.proxy) [C10]
 //@   requires c != nil && raw != nil && raw.Header != nil && body != nil && c.proxy != nil && c.conn != nil && c.codec != nil && inv(c.proxy) && c.proxy.cluster != nil && !$selReached && !$useTried
 //@   after parser.IsQueryHandled#1 set $qhHandled = result0
@@ -542,9 +544,14 @@ func verifSpecCL(lowered string) primitive.ConsistencyLevel {
 //@   ensures one-answer: (c.$sent - old(c.$sent)) + ($reqStarted - old($reqStarted)) == 1 && c.$sent >= old(c.$sent) && $reqStarted >= old($reqStarted)
 //@   ensures request-frame: $reqStarted == old($reqStarted) + 1 ==> (valof($lastReq.frm) == ref(raw) && typeis($lastReq.frm, *frame.RawFrame)) || (fresh($lastReq.frm) && (typeis($lastReq.frm, *frame.RawFrame) ==> len(as($lastReq.frm, *frame.RawFrame).Body) == 0 || fresh(as($lastReq.frm, *frame.RawFrame).Body))) [C03]
 //@   ensures on-stream: c.$sent == old(c.$sent) + 1 ==> $lastClient == c && $lastStream == old(raw.Header.StreamId)
-//@   modifies *, c.$sent, c.$executed, $reqStarted, $sends, $convertedBody, $lastReq, $lastMsg, $lastStream, $lastVersion, $lastClient, $qhHandled, $selReached, $selDot, $selErr, $selQual, $selTable, $useTried, $useOK, $useKs, $useVersion, $useCompression, any(proxycore.ClientConn).inflight, any(proxycore.pendingRequests).$has, any(proxycore.pendingRequests).$tag, any(proxycore.pendingRequests).$val
+//@   modifies *, $hkKsOK, c.$sent, c.$executed, $reqStarted, $sends, $convertedBody, $lastReq, $lastMsg, $lastStream, $lastVersion, $lastClient, $qhHandled, $selReached, $selDot, $selErr, $selQual, $selTable, $useTried, $useOK, $useKs, $useVersion, $useCompression, any(proxycore.ClientConn).inflight, any(proxycore.pendingRequests).$has, any(proxycore.pendingRequests).$tag, any(proxycore.pendingRequests).$val
 
+// C09: an unqualified table name is resolved in the keyspace the request runs in - the PREPARE's own keyspace
+// (v5) or the connection's current one - taken as the client wrote it (quoting and case preserved)
+//@ ghostvar $hkKsOK bool
 //@ func proxy.client.handlePrepare [C01, C09]
+//@   before parser.IsQueryHandled#1 set $hkKsOK = (arg0.id == parser.IdentifierFromString(ite(len(msg.Keyspace) != 0, msg.Keyspace, c.keyspace)).id && arg0.ignoreCase == parser.IdentifierFromString(ite(len(msg.Keyspace) != 0, msg.Keyspace, c.keyspace)).ignoreCase)
+//@   ensures resolved-in-the-request-keyspace: $hkKsOK [C09]
 //@   requires prepared-table: preparedOK(c) [C10]
 //@   ensures prepared-table: preparedOK(c) [C10]
 //@   requires c != nil && raw != nil && raw.Header != nil && body != nil && c.proxy != nil && c.conn != nil && c.codec != nil && inv(c.proxy) && c.proxy.cluster != nil && c.preparedSystemQuery != nil && !$selReached
@@ -554,7 +561,7 @@ func verifSpecCL(lowered string) primitive.ConsistencyLevel {
 //@   ensures one-answer: (c.$sent - old(c.$sent)) + ($reqStarted - old($reqStarted)) == 1 && c.$sent >= old(c.$sent) && $reqStarted >= old($reqStarted)
 //@   ensures request-frame: $reqStarted == old($reqStarted) + 1 ==> (valof($lastReq.frm) == ref(raw) && typeis($lastReq.frm, *frame.RawFrame)) || (fresh($lastReq.frm) && (typeis($lastReq.frm, *frame.RawFrame) ==> len(as($lastReq.frm, *frame.RawFrame).Body) == 0 || fresh(as($lastReq.frm, *frame.RawFrame).Body))) [C03]
 //@   ensures on-stream: c.$sent == old(c.$sent) + 1 ==> $lastClient == c && $lastStream == old(raw.Header.StreamId)
-//@   modifies *, c.preparedSystemQuery[*], c.$sent, c.$executed, $reqStarted, $sends, $convertedBody, $lastReq, $lastMsg, $lastStream, $lastVersion, $lastClient, $qhHandled, $selReached, $selDot, $selErr, $selQual, $selTable, any(proxycore.ClientConn).inflight, any(proxycore.pendingRequests).$has, any(proxycore.pendingRequests).$tag, any(proxycore.pendingRequests).$val
+//@   modifies *, $hkKsOK, c.preparedSystemQuery[*], c.$sent, c.$executed, $reqStarted, $sends, $convertedBody, $lastReq, $lastMsg, $lastStream, $lastVersion, $lastClient, $qhHandled, $selReached, $selDot, $selErr, $selQual, $selTable, any(proxycore.ClientConn).inflight, any(proxycore.pendingRequests).$has, any(proxycore.pendingRequests).$tag, any(proxycore.pendingRequests).$val
 
 //@ ghostvar $exId [16]byte
 //@ ghostvar $exLocal bool
